@@ -97,7 +97,12 @@ def run(rep, tier, seed, replay):
         wroot = None
         w = h.ask(["WP %s %s" % (c.f.get("base", "-").replace("40.52", c.f.get("root_real", "-")), hx(c.expr.replace("@ROOT", unhx(c.f.get("root_real", "-")))))])[0]
         wroot = unhx(walklib.parse_answer(w)[1].get("root", "-")).replace(unhx(c.f.get("root_real", "-")), "@R")
-        if missing and norm(missing[0]) == norm(wroot) and kinds.get("@R/" + "/".join(norm(missing[0])[1:]), "").startswith("l"):
+        def kind_of(path):
+            q = norm(path)
+            q = q[1:] if q and q[0] == "@R" else q
+            return kinds.get("@R/" + "/".join(q), "") if q else ""
+        if kind_of(wroot).startswith("l"):
+            # the glob's invariant prefix names a link: it becomes the walk root, which walkdir follows
             tag = "K-WALK-ROOT-LINK"
         elif dotted_prefix(c.expr) or ".." in c.base or c.base.startswith(("./", "~./")) or c.base in (".", "~."):
             tag = "K-WALK-DOT-PREFIX"
